@@ -30,7 +30,7 @@ type Client struct {
 	// LastWhy says why the last Call returned ok=false ("" after a successful call); a reason starting with "watchdog"
 	// is a wall-clock limit of the harness, not an observation about the server.
 	LastWhy string
-	// WideInts makes Agreed send its integer fields (icon, options) in the 4-byte encoding, which the protocol allows
+	// WideInts makes Agreed send its integer fields (icon and options) in the 4-byte encoding, which the protocol allows
 	// as well as the 2-byte one.
 	WideInts bool
 	HsReply  []byte
@@ -253,6 +253,7 @@ func (c *Client) Agreed(name string, icon int, options int, autoReply string) (r
 		refcodec.FS(102, name), refcodec.F(104, refcodec.U16(icon)), refcodec.F(113, refcodec.U16(options)),
 	}
 	if c.WideInts {
+		fs[1] = refcodec.F(104, refcodec.U32(icon))
 		fs[2] = refcodec.F(113, refcodec.U32(options))
 	}
 	if autoReply != "" {
